@@ -46,6 +46,13 @@ Theorem C11_sites_ok :
   head_check_first = true /\ hasDefaultCase_only_false = true.
 Proof. exact sites_ok. Qed.
 
+(* Program.Run and Template.Run call vm.AllowGoroutines after vm.SetContext:
+   the cancellation that a failing goroutine raises derives from the context
+   that is set, so it is not replaced by it (seeded change C12-g) *)
+Theorem C11_goroutines_signal_after_context : goroutines_after_context = true.
+Proof. exact goroutines_signal_after_context. Qed.
+Print Assumptions C11_goroutines_signal_after_context.
+
 Theorem C11_all_guarded : forall b, op_guarded b = true.
 Proof. exact all_guarded. Qed.
 
